@@ -158,8 +158,12 @@ Notation ref_dec_nd E P := (ref_dec_nd_g E P true).
 Notation ref_dec_nd_l E P := (ref_dec_nd_g E P false).
 
 (* the global option namedtuple_as_dict flags every NamedTuple class: the statements about one flagged
-   class then describe the classes whose item types reach no other NamedTuple.  Fuel as in
-   TyModel.const_ty_n (the class table is finite: [List.length E] suffices on an acyclic table). *)
+   class then describe the classes whose item types reach no other NamedTuple.  Reachability through
+   dataclasses / TypedDicts of the class table: every reachable class is reachable along a path of
+   pairwise distinct classes, i.e. of at most [List.length E] classes; when the fuel [List.length E] is used
+   up the path has just repeated a class (recursive dataclass), whose fields are examined where it was
+   entered first -- hence [true] there.  (Used as the domain predicate of the correspondence for the global
+   option only; no theorem depends on it.) *)
 Section NtFree.
   Variable E : senv.
   Fixpoint nt_free_n (n: nat) {struct n} : sty -> bool :=
@@ -172,14 +176,14 @@ Section NtFree.
       | SDict kt vt | SMap kt vt => on_t kt && on_t vt
       | SData c =>
           match n with
-          | O => false
+          | O => true
           | S n' => match sfind E KData c with
                     | Some k => forallb (fun f => nt_free_n n' f.(sf_ty)) k.(sc_fields)
                     | None => true end
           end
       | STyped c =>
           match n with
-          | O => false
+          | O => true
           | S n' => match sfind E KTyped c with
                     | Some k => forallb (fun f => nt_free_n n' f.(sf_ty)) k.(sc_fields)
                     | None => true end
